@@ -109,8 +109,8 @@ def special(out):
 
 def main():
     name = sys.argv[1] if len(sys.argv) > 1 else ""
-    import jscall
-    legs = {"special": special, "jscall": jscall.run}
+    import jscall, demogen
+    legs = {"special": special, "jscall": jscall.run, "demogen": demogen.run}
     if name not in legs:
         print("usage: ./extra <%s>" % "|".join(legs), file=sys.stderr)
         return 2
@@ -123,20 +123,21 @@ def main():
     d = lib.ensure(os.path.join(lib.VERIF, "extra_evidence"))
     json.dump(out, open(os.path.join(d, name + ".json"), "w"), indent=1, default=str)
     seen = {}
-    if name == "jscall":
+    if name in ("jscall", "demogen"):
         # differences already analysed and described in DESIGN.md §0.6 are listed in extra_known.json (by ABI, kind and a pattern on
         # the method shape); they are printed as KNOWN-DIFFERENCE, anything else is a new DIFFERENCE (exit 3)
-        known = json.load(open(os.path.join(lib.VERIF, "extra_known.json")))["jscall"]
+        known = json.load(open(os.path.join(lib.VERIF, "extra_known.json"))).get(name, [])
         seen, newd = {}, 0
         for x in diffs:
-            kn = next((k for k in known if k["abi"] == x["case"]["abi"] and x["what"].startswith(k["what"]) and re.search(k["shape"], x["shape"])), None)
-            k = ("KNOWN-DIFFERENCE" if kn else "DIFFERENCE", x["case"]["abi"], x["what"])
+            abi = x["case"].get("abi", "-")
+            kn = next((k for k in known if k.get("abi", "-") == abi and x["what"].startswith(k["what"]) and re.search(k["shape"], x["shape"])), None)
+            k = ("KNOWN-DIFFERENCE" if kn else "DIFFERENCE", abi, x["what"])
             if k not in seen:
                 seen[k] = [0, x["shape"]]
             seen[k][0] += 1
             newd += (kn is None)
         for (tag, abi, what), (n, eg) in sorted(seen.items()):
-            print("%s extra=jscall abi=%s %s (x%d, e.g. %s)" % (tag, abi, what, n, eg))
+            print("%s extra=%s%s %s (x%d, e.g. %s)" % (tag, name, (" abi=" + abi) if abi != "-" else "", what, n, eg))
         print("extra %s: cases=%d differences=%d known=%d new=%d" % (name, out.get("cases", 0), len(diffs), len(diffs) - newd, newd))
         return 3 if newd else 0
     for x in diffs:
